@@ -1,9 +1,27 @@
-(** Property C04 -- printing (PARTIAL: buffer level; see DESIGN.md).
+(** Property C04 -- printing, auto-wrap, insert mode and charsets.
     Only pinned statements, closed by [exact], with their assumptions printed. *)
-From Avt Require Import Spec.Screen Proofs.Inv Proofs.BufRow.
+From Avt Require Import Oracles.Step Proofs.Inv Proofs.VisEq Proofs.BufRow Proofs.SpecPrint.
 
-(** writing a cell changes exactly that cell *)
-Theorem C04_buf_print : forall b col row x, BGeom b -> row < brows b -> col < bcols b -> buf_print b col row x = Ok (bset b (upd_row row (set_cell col x) (view b))) /\ BGeom (bset b (upd_row row (set_cell col x) (view b))).
-Proof. exact buf_print_spec. Qed.
-Check C04_buf_print : forall b col row x, BGeom b -> row < brows b -> col < bcols b -> buf_print b col row x = Ok (bset b (upd_row row (set_cell col x) (view b))) /\ BGeom (bset b (upd_row row (set_cell col x) (view b))).
-Print Assumptions C04_buf_print.
+(** the DEC special graphics table regenerated from the source is the VT100 table of the specification, for every character *)
+Theorem C04_charset : forall cs c, translate cs c = Ok (spec_translate cs c).
+Proof. exact C04_translate. Qed.
+Check C04_charset : forall cs c, translate cs c = Ok (spec_translate cs c).
+Print Assumptions C04_charset.
+
+(** Printing from every state satisfying the invariant (wrap-pending column, 1-column screens, cursor below the region, insert mode, auto-wrap off included) yields exactly the specified screen: deferred wrap (with region scroll on the bottom margin), write with the current pen, advance / park; nothing else changes; and the invariant holds again. *)
+Theorem C04_print : forall t c, TInv t -> exists t', execute t (Print c) = Ok t' /\ vis_norm (spec_print t c) = vis_norm t' /\ TInv t'.
+Proof. exact C04_print. Qed.
+Check C04_print : forall t c, TInv t -> exists t', execute t (Print c) = Ok t' /\ vis_norm (spec_print t c) = vis_norm t' /\ TInv t'.
+Print Assumptions C04_print.
+
+(** REP n = the character left of the cursor typed n times *)
+Theorem C04_rep : forall t n, TInv t -> exists t', execute t (Rep n) = Ok t' /\ vis_norm (spec_rep t n) = vis_norm t' /\ TInv t'.
+Proof. exact C04_rep. Qed.
+Check C04_rep : forall t n, TInv t -> exists t', execute t (Rep n) = Ok t' /\ vis_norm (spec_rep t n) = vis_norm t' /\ TInv t'.
+Print Assumptions C04_rep.
+
+(** the executable statement evaluated on the implementation is a theorem of the model *)
+Theorem C04_statement : forall p p' t f t', TInv t -> execute t f = Ok t' -> holds_C04 (mkVt p t) f (mkVt p' t') = true.
+Proof. exact C04_holds. Qed.
+Check C04_statement : forall p p' t f t', TInv t -> execute t f = Ok t' -> holds_C04 (mkVt p t) f (mkVt p' t') = true.
+Print Assumptions C04_statement.
